@@ -4,6 +4,10 @@ From GV Require Import Common.Outcome C14.Model C14.Schema_gen C14.Spec.
 Import ListNotations.
 Local Open Scope N_scope.
 
+(* split syntactic conjunctions only (never unfold a definition to find one) *)
+Ltac splits :=
+  repeat match goal with |- _ /\ _ => split end; try reflexivity; try exact I.
+
 (* ------------------------------------------------ induction over schemas *)
 
 Section SchemaInd.
@@ -222,7 +226,7 @@ Proof.
   destruct (take k bs) as [[a r]|] eqn:Ht; [|discriminate].
   inversion H; subst. apply take_inv in Ht. destruct Ht as [Hbs Hlen].
   exists a. subst bs. apply bytes_ok_app in Hok. destruct Hok as [Hoka _].
-  repeat split; try assumption.
+  splits; try assumption.
   - rewrite <- Hlen. apply le_val_bound. exact Hoka.
   - rewrite <- Hlen. apply le_bytes_le_val. exact Hoka.
 Qed.
@@ -235,13 +239,13 @@ Definition R (c : cfg) (e pre : list N) : Prop :=
   (c = Fix -> pre = e).
 
 Lemma R_refl : forall c e, R c e e.
-Proof. intros c e. unfold R. repeat split; auto. Qed.
+Proof. intros c e. unfold R. splits; auto. Qed.
 
 Lemma R_app : forall c e1 p1 e2 p2,
   R c e1 p1 -> R c e2 p2 -> R c (e1 ++ e2) (p1 ++ p2).
 Proof.
   intros c e1 p1 e2 p2 [Hl1 [He1 Hf1]] [Hl2 [He2 Hf2]]. unfold R.
-  rewrite !app_length. repeat split.
+  rewrite !app_length. splits.
   - lia.
   - intros Hlen. rewrite He1 by lia. rewrite He2 by lia. reflexivity.
   - intros Hc. rewrite Hf1 by exact Hc. rewrite Hf2 by exact Hc. reflexivity.
@@ -255,7 +259,7 @@ Qed.
 
 Lemma R_short : forall e pre, (length e < length pre)%nat -> R Var e pre.
 Proof.
-  intros e pre H. unfold R. repeat split.
+  intros e pre H. unfold R. splits.
   - lia.
   - intros Heq. lia.
   - intros Hc. discriminate.
@@ -301,20 +305,20 @@ Proof.
   intros c w bs n rest Hok H. destruct c; unfold dec_int, enc_int in *.
   - apply dec_fix_inv in H; [|exact Hok].
     destruct H as [a [Hbs [Hlen [Hn Hle]]]].
-    exists a. rewrite p256_iw in Hn. repeat split; try assumption.
+    exists a. rewrite p256_iw in Hn. splits; try assumption.
     rewrite Hle. apply R_refl.
   - unfold dec_var in H. destruct bs as [|t r]; [discriminate|].
     inversion Hok as [|? ? Ht Hr]; subst.
     pose proof (iw_max_ge w) as Hge.
     destruct (t <? 251) eqn:H1.
-    { inversion H; subst. apply N.ltb_lt in H1. exists [n]. repeat split.
+    { inversion H; subst. apply N.ltb_lt in H1. exists [n]. splits.
       - lia.
       - unfold enc_var. apply N.ltb_lt in H1. rewrite H1. apply R_refl. }
     destruct (t =? 251) eqn:H2.
     { apply N.eqb_eq in H2. subst t.
       apply dec_fix_inv in H; [|exact Hr].
       destruct H as [a [Hbs [Hlen [Hn Hle]]]]. simpl in Hn.
-      exists (251 :: a). subst r. repeat split.
+      exists (251 :: a). subst r. splits.
       - lia.
       - unfold enc_var. destruct (n <? 251).
         + apply R_short. simpl. lia.
@@ -323,25 +327,25 @@ Proof.
     { apply andb_true_iff in H3. destruct H3 as [H3 Hw]. apply N.eqb_eq in H3. subst t.
       apply dec_fix_inv in H; [|exact Hr].
       destruct H as [a [Hbs [Hlen [Hn Hle]]]]. simpl in Hn.
-      exists (252 :: a). subst r. repeat split.
+      exists (252 :: a). subst r. splits.
       - destruct w; simpl in *; [discriminate|lia|lia].
       - unfold enc_var. destruct (n <? 251).
         + apply R_short. simpl. lia.
         + destruct (n <? 65536).
-          * apply R_short. simpl. rewrite le_bytes_length. lia.
+          * apply R_short. simpl; rewrite ?le_bytes_length; lia.
           * apply N.ltb_lt in Hn. rewrite Hn. rewrite Hle. apply R_refl. }
     destruct ((t =? 253) && w_is64 w) eqn:H4; [|discriminate].
     apply andb_true_iff in H4. destruct H4 as [H4 Hw]. apply N.eqb_eq in H4. subst t.
     apply dec_fix_inv in H; [|exact Hr].
     destruct H as [a [Hbs [Hlen [Hn Hle]]]]. simpl in Hn.
-    exists (253 :: a). subst r. repeat split.
+    exists (253 :: a). subst r. splits.
     + destruct w; simpl in *; [discriminate|discriminate|lia].
     + unfold enc_var. destruct (n <? 251).
       * apply R_short. simpl. lia.
       * destruct (n <? 65536).
-        -- apply R_short. simpl. rewrite le_bytes_length. lia.
+        -- apply R_short. simpl; rewrite ?le_bytes_length; lia.
         -- destruct (n <? 4294967296).
-           ++ apply R_short. simpl. rewrite le_bytes_length. lia.
+           ++ apply R_short. simpl; rewrite ?le_bytes_length; lia.
            ++ rewrite Hle. apply R_refl.
 Qed.
 
@@ -453,7 +457,7 @@ Qed.
 Lemma codec_roundtrip_needs_wf : codec_roundtrip_needs_wf_stmt.
 Proof.
   exists Fix, (STuple [SU8; SOpaque 1]), (VTuple [VInt 7; VOpaque]), [].
-  repeat split.
+  splits.
   - simpl. lia.
   - simpl. discriminate.
 Qed.
@@ -479,7 +483,7 @@ Lemma inv_rep : forall c s, inv c s ->
                 R c (flat_map (encode c s) vs) pre.
 Proof.
   intros c s Hs k. induction k as [|k IH]; intros bs vs rest Hok H.
-  - cbn [dec_rep] in H. inversion H; subst. exists []. repeat split.
+  - cbn [dec_rep] in H. inversion H; subst. exists []. splits.
     + constructor.
     + apply R_refl.
   - cbn [dec_rep] in H.
@@ -489,7 +493,7 @@ Proof.
     apply Hs in Hd; [|exact Hok]. destruct Hd as [p1 [Hbs [Hv HR1]]]. subst bs.
     apply bytes_ok_app in Hok. destruct Hok as [_ Hok1].
     apply IH in Hr; [|exact Hok1]. destruct Hr as [p2 [Hr1 [Hlen [HF HR2]]]]. subst r1.
-    exists (p1 ++ p2). repeat split.
+    exists (p1 ++ p2). splits.
     + rewrite app_assoc. reflexivity.
     + simpl. rewrite Hlen. reflexivity.
     + constructor; assumption.
@@ -502,9 +506,8 @@ Lemma inv_tuple : forall c ss, Forall (inv c) ss ->
     exists pre, bs = pre ++ rest /\ has_tuple ss vs /\ R c (enc_tuple c ss vs) pre.
 Proof.
   intros c ss HF. induction HF as [|s ss Hs HF IH]; intros bs vs rest Hok H.
-  - cbn [dec_tuple] in H. inversion H; subst. exists []. repeat split.
-    + exact I.
-    + apply R_refl.
+  - cbn [dec_tuple] in H. inversion H; subst. exists []. splits.
+    apply R_refl.
   - cbn [dec_tuple] in H.
     destruct (decode c s bs) as [[v r1]|] eqn:Hd; [|discriminate].
     destruct (dec_tuple c ss r1) as [[vs' r2]|] eqn:Hr; [|discriminate].
@@ -512,7 +515,7 @@ Proof.
     apply Hs in Hd; [|exact Hok]. destruct Hd as [p1 [Hbs [Hv HR1]]]. subst bs.
     apply bytes_ok_app in Hok. destruct Hok as [_ Hok1].
     apply IH in Hr; [|exact Hok1]. destruct Hr as [p2 [Hr1 [Hvs HR2]]]. subst r1.
-    exists (p1 ++ p2). repeat split.
+    exists (p1 ++ p2). cbn [has_tuple]. splits.
     + rewrite app_assoc. reflexivity.
     + assumption.
     + assumption.
@@ -530,7 +533,7 @@ Proof.
   - destruct i as [|i]; cbn [dec_pick] in H.
     + apply wrap_inv in H. destruct H as [v' [Hd Hv]].
       apply Hs in Hd; [|exact Hok]. destruct Hd as [pre [Hbs [Hv' HR]]].
-      exists v', pre. repeat split; assumption.
+      exists v', pre. splits; assumption.
     + apply IH in H; [|exact Hok]. exact H.
 Qed.
 
@@ -540,19 +543,19 @@ Proof.
   - (* u8 *) intros bs v rest Hok H. cbn [decode] in H.
     destruct bs as [|b r]; [discriminate|]. inversion H; subst.
     inversion Hok as [|? ? Hb Hr]; subst.
-    exists [b]. repeat split.
+    exists [b]. splits.
     + exact Hb.
     + apply R_refl.
   - (* int *) intros w bs v rest Hok H. cbn [decode] in H.
     apply wrap_inv in H. destruct H as [n [Hd Hv]]. subst v.
     apply dec_int_inv in Hd; [|exact Hok]. destruct Hd as [pre [Hbs [Hn HR]]].
-    exists pre. repeat split; assumption.
+    exists pre. splits; assumption.
   - (* bool *) intros bs v rest Hok H. cbn [decode] in H.
     destruct bs as [|b r]; [discriminate|].
     destruct (b =? 0) eqn:H0.
-    { apply N.eqb_eq in H0. subst b. inversion H; subst. exists [0]. repeat split. apply R_refl. }
+    { apply N.eqb_eq in H0. subst b. inversion H; subst. exists [0]. splits. apply R_refl. }
     destruct (b =? 1) eqn:H1; [|discriminate].
-    apply N.eqb_eq in H1. subst b. inversion H; subst. exists [1]. repeat split. apply R_refl.
+    apply N.eqb_eq in H1. subst b. inversion H; subst. exists [1]. splits. apply R_refl.
   - (* string *) intros bs v rest Hok H. cbn [decode] in H.
     destruct (dec_int c W64 bs) as [[n r]|] eqn:Hd; [|discriminate].
     destruct (PREALLOC_LIMIT <? n) eqn:Hlim; [discriminate|]. apply N.ltb_ge in Hlim.
@@ -562,7 +565,7 @@ Proof.
     apply bytes_ok_app in Hok. destruct Hok as [_ Hok1].
     apply bytes_ok_app in Hok1. destruct Hok1 as [Hokl _].
     assert (Hn' : N.of_nat (length l) = n) by (rewrite Hlen; apply N2Nat.id).
-    exists (p1 ++ l). repeat split.
+    exists (p1 ++ l). cbn [has_schema]. splits.
     + rewrite app_assoc. reflexivity.
     + rewrite Hn'. exact Hlim.
     + exact Hokl.
@@ -571,12 +574,12 @@ Proof.
     destruct bs as [|b r]; [discriminate|].
     inversion Hok as [|? ? Hb Hr]; subst.
     destruct (b =? 0) eqn:H0.
-    { apply N.eqb_eq in H0. subst b. inversion H; subst. exists [0]. repeat split. apply R_refl. }
+    { apply N.eqb_eq in H0. subst b. inversion H; subst. exists [0]. splits. apply R_refl. }
     destruct (b =? 1) eqn:H1; [|discriminate].
     apply N.eqb_eq in H1. subst b.
     apply wrap_inv in H. destruct H as [v' [Hd Hv]]. subst v.
     apply IH in Hd; [|exact Hr]. destruct Hd as [pre [Hbs [Hv' HR]]]. subst r.
-    exists (1 :: pre). repeat split.
+    exists (1 :: pre). splits.
     + exact Hv'.
     + cbn [encode]. apply R_cons. exact HR.
   - (* vec *) intros s IH bs v rest Hok H. rewrite decode_vec_eq in H.
@@ -588,7 +591,7 @@ Proof.
     apply (inv_rep c s IH) in Hrep; [|exact Hok1].
     destruct Hrep as [p2 [Hr [Hlen [HF HR2]]]]. subst r.
     assert (Hn' : N.of_nat (length l) = n) by (rewrite Hlen; apply N2Nat.id).
-    exists (p1 ++ p2). repeat split.
+    exists (p1 ++ p2). cbn [has_schema]. splits.
     + rewrite app_assoc. reflexivity.
     + rewrite Hn'. exact Hlim.
     + exact HF.
@@ -597,7 +600,7 @@ Proof.
     apply wrap_inv in H. destruct H as [vs [Hd Hv]]. subst v.
     apply (inv_tuple c ss HF) in Hd; [|exact Hok].
     destruct Hd as [pre [Hbs [Hvs HR]]].
-    exists pre. rewrite has_tuple_eq, encode_tuple_eq. repeat split; assumption.
+    exists pre. rewrite has_tuple_eq, encode_tuple_eq. splits; assumption.
   - (* enum *) intros ss HF bs v rest Hok H. rewrite decode_enum_eq in H.
     destruct (dec_int c W32 bs) as [[t r]|] eqn:Hd; [|discriminate].
     destruct (t <? N.of_nat (length ss)) eqn:Hlt; [|discriminate].
@@ -605,7 +608,7 @@ Proof.
     apply bytes_ok_app in Hok. destruct Hok as [_ Hok1].
     apply (inv_pick c (N.to_nat t) ss HF) in H; [|exact Hok1].
     destruct H as [v' [p2 [Hv [Hr [Hp HR2]]]]]. subst v r.
-    exists (p1 ++ p2). rewrite has_pick_eq, encode_enum_eq. rewrite N2Nat.id. repeat split.
+    exists (p1 ++ p2). rewrite has_pick_eq, encode_enum_eq. rewrite N2Nat.id. splits.
     + rewrite app_assoc. reflexivity.
     + exact Hp.
     + apply R_app; assumption.
@@ -629,7 +632,7 @@ Qed.
 Lemma codec_canonical_varint_refuted : codec_canonical_varint_refuted_stmt.
 Proof.
   exists (SInt W16), [251; 5; 0], (VInt 5), [].
-  repeat split.
+  splits.
   - unfold bytes_ok. repeat constructor.
   - vm_compute. discriminate.
 Qed.
@@ -676,7 +679,7 @@ Example ex_schema : schema :=
 Example ex_has_schema : has_schema ex_schema ex_value.
 Proof.
   unfold ex_schema, ex_value, bytes_ok. simpl. unfold PREALLOC_LIMIT.
-  repeat (split || constructor || lia).
+  repeat (split || constructor || lia); vm_compute; discriminate.
 Qed.
 
 Example ex_roundtrip_var :
